@@ -214,6 +214,14 @@ func FindProtocolVersion(data []byte) string {
 // result column that is not binary (a scalar-returning method) — so the
 // caller can forward the body unchanged.
 func ReadUnaryResult(data []byte) (schema *arrow.Schema, result []byte, ok bool) {
+	// arrow-go does not validate value offsets when it loads a batch, so reading
+	// the result cell of a corrupted body can panic. Lenient means lenient: such
+	// a body is "not a result", like every other body this cannot unwrap.
+	defer func() {
+		if recover() != nil {
+			schema, result, ok = nil, nil, false
+		}
+	}()
 	reader, err := ipc.NewReader(bytes.NewReader(data))
 	if err != nil {
 		return nil, nil, false
